@@ -295,6 +295,16 @@ def run(rep, tier, seed, replay=None):
             settings_pairs.append((fam, host, pline, dline))
             rep.count("settings-through-dispatch:" + fam)
     cases += arms_sweep(rep, tables, first_base, tier)
+    if tier == "thorough":
+        # self-test of the arms translation: mutated copies of games/query.rs must break the proof stage (tools/arms_selftest.py)
+        import arms_selftest
+        res, restored = arms_selftest.run()
+        rep.extra_cov["arms_selftest"] = [f"{r['mutation']}: {'caught' if r['caught'] else 'skipped' if r['caught'] is None else 'MISSED'} — {r['how']}: {r['detail'][:160]}" for r in res]
+        for r in res:
+            if r["caught"] is False:
+                rep.tie_failures.append(f"arms self-test: mutation {r['mutation']} of games/query.rs is not caught by Props/C14_arms.lean")
+        if not restored:
+            rep.tie_failures.append("arms self-test: the tree does not build after Gen/Arms.lean was restored")
     model, impl, panics = vlib.correspond(rep, netprops.corpus("C14") + cases, oracle=netprops.crash_oracle, trivial=netprops.trivial, tag="c14")
     for fam, host, pline, dline in settings_pairs:
         po, do = impl.get(pline.split(" ", 1)[0], ""), impl.get(dline.split(" ", 1)[0], "")
